@@ -60,7 +60,7 @@ def main():
                 sys.stdout.flush()
             results[name] = {"property": prop, "results": res}
         finally:
-            sh("git -C /repo checkout -- .")
+            sh("git -C /repo checkout -- . && git -C /repo clean -fdq -- src")
         json.dump(results, open(rp, "w"), indent=1)
     clean()
 main()
